@@ -18,7 +18,11 @@ from vlib.coqlit import cstr, cz, cnat, cbool, clist, cpair, copt, cjv
 
 ID = "C10"
 COQ_PROPS = "Props/C10.v"
-THEOREMS = ["C10_iff", "C10_reject_outside", "C10_corruptions", "C10_doubles", "C10_gate", "C10_multiplicity"]
+THEOREMS = ["C10_iff", "C10_reject_outside", "C10_corruptions", "C10_doubles", "C10_gate", "C10_multiplicity",
+            "C10_accepts", "C10_gap", "C10_iff_rules",
+            "C10_gap_degenerate_refuted", "C10_gap_stale_refuted", "C10_gap_nonpositive_refuted",
+            "C10_gap_affine_refuted", "C10_gap_sized_refuted"]
+KNOWN_SIG = "check-valid/unchecked-degenerate-or-stale"      # open finding N14 (known-findings.txt)
 ALLOWED_AXIOMS = []
 TABLES = ["t_content"]
 RULE = ("check: base contents = valid extensions of every dimensionality (3-D, 4-D, 5-D, (X,Y,Z,1,V)), every slice "
@@ -103,14 +107,21 @@ def rule_mult(shape, sd, cl):
     return {'global': S * T * V, 'time': S, 'vector': S * T}[base]
 
 
+# Rules that check_valid does not enforce (open finding N14): breaking ONLY such a rule is the known finding.
+GAP_RULES = ('dim-not-positive', 'affine-not-numeric', 'degenerate-count', 'sized-non-list', 'stale-duplicate')
+
+
 def rules(c):
-    """(verdict, broken rule).  verdict True = meets every rule, False = breaks one, None = the property is silent
-    (values whose reading the format does not define: see ASSUMPTIONS)."""
+    """The format rules LITERALLY as the property states them (Content/Rules.v valid_rules is the same text in Coq).
+    Returns (verdict, broken rule): verdict True = meets every rule, False = breaks one, None = the property is
+    silent (a value whose reading the format does not define: float slice dim, non-list shape, non-int shape entry,
+    non-dict entry of a valid classification).  When several rules are broken, a rule that check_valid enforces is
+    reported in preference to one of GAP_RULES."""
     if not isinstance(c, dict):
         return False, 'content-not-a-dict'
-    ver = c.get('dcmmeta_version', None)
     if 'dcmmeta_version' not in c:
         return False, 'required-field'
+    ver = c['dcmmeta_version']
     if isinstance(ver, bool) or not isinstance(ver, (int, float)):
         return False, 'version'
     req = None
@@ -122,70 +133,96 @@ def rules(c):
     for k in req:
         if k not in c:
             return False, 'required-field'
-    silent = False
-    # affine
+    gaps = []
+    # a 4x4 affine of numbers
     a = c['dcmmeta_affine']
     if not (isinstance(a, list) and len(a) == 4 and all(isinstance(r, list) and len(r) == 4 and
                                                          all(not isinstance(x, list) for x in r) for r in a)):
         return False, 'affine'
-    if not all(isinstance(x, (int, float)) and not isinstance(x, bool) for r in a for x in r):
-        silent = True
-    # slice dim
+    if not all(isinstance(x, (int, float)) for r in a for x in r):
+        gaps.append('affine-not-numeric')
+    # slice dimension None or 0..2 (True/False are the ints 1/0)
     sd = c['dcmmeta_slice_dim']
     if sd is not None:
-        if isinstance(sd, (bool, float)):
-            silent = True
-            if isinstance(sd, float):
-                return None, 'slice-dim-float'
-            sd = int(sd)
-        elif not is_int(sd):
+        if isinstance(sd, float):
+            return None, 'slice-dim-float'
+        if not isinstance(sd, int):
             return False, 'slice-dim'
+        sd = int(sd)
         if not (0 <= sd <= 2):
             return False, 'slice-dim'
-    # shape
+    # 3 to 5 positive dimensions
     sh = c['dcmmeta_shape']
     if not isinstance(sh, list):
         return None, 'shape-not-a-list'
     if not (3 <= len(sh) <= 5):
         return False, 'shape-length'
-    if not all(is_int(x) and x >= 1 for x in sh):
+    if not all(is_int(x) for x in sh):
         return None, 'shape-entries'
-    # classification dictionaries
-    for b, s in CLASSES:
+    if not all(x >= 1 for x in sh):
+        gaps.append('dim-not-positive')
+    # the classification dictionaries required for the dimensionality
+    vc = rule_classes(sh)
+    for b, s in vc:
         if b in c and not isinstance(c[b], dict):
             return None, 'class-entry-not-a-dict'
         if b in c and s in c[b] and not isinstance(c[b][s], dict):
             return None, 'class-entry-not-a-dict'
-    vc = rule_classes(sh)
     for b, s in vc:
         if b not in c or s not in c[b]:
             return False, 'class-dict-missing'
+    # exactly `multiplicity` values for every key of every varying classification; no per-slice data without slice dim
     for cl in vc:
+        if cl[1] == 'const':
+            continue
         d = c[cl[0]][cl[1]]
         m = rule_mult(sh, sd, cl)
         if cl[1] == 'slices' and sd is None:
             if len(d) != 0:
                 return False, 'per-slice-data-without-slice-dim'
-        elif m > 1:
-            for k, v in d.items():
-                if isinstance(v, list):
-                    if len(v) != m:
-                        return False, 'number-of-values'
-                elif isinstance(v, (str, dict)):
-                    if len(v) != m:
-                        return False, 'number-of-values'
-                    silent = True       # a str/dict of the right len(): the rules do not define it
-                else:
-                    return False, 'number-of-values'
+            continue
+        if m < 1:
+            continue                      # only with a non-positive dimension (already recorded)
+        for k, v in d.items():
+            if isinstance(v, list) and len(v) == m:
+                continue
+            if m == 1:
+                gaps.append('degenerate-count')
+            elif isinstance(v, (str, dict)) and len(v) == m:
+                gaps.append('sized-non-list')
+            else:
+                return False, 'number-of-values'
+    # no key in two classification dictionaries
     seen = {}
     for cl in vc:
         for k in c[cl[0]][cl[1]]:
             if k in seen:
                 return False, 'key-in-two-classifications'
             seen[k] = cl
-    if silent:
-        return None, 'undefined-reading'
+    for cl in CLASSES:
+        if cl in vc:
+            continue
+        d = class_dict(c, *cl)
+        for k in (d or {}):
+            if k in seen:
+                gaps.append('stale-duplicate')
+            seen.setdefault(k, cl)
+    if gaps:
+        return False, gaps[0]
     return True, None
+
+
+def judge(content, accepted, who, err=None):
+    """Oracle verdict on one accept/reject decision: (message, signature) or None."""
+    verdict, rule = rules(content)
+    if verdict is None:
+        return None
+    if accepted and not verdict:
+        sig = KNOWN_SIG if rule in GAP_RULES else 'accepts-invalid/%s' % rule
+        return ('%s ACCEPTED a content that breaks the rule: %s' % (who, rule), sig)
+    if not accepted and verdict:
+        return ('%s REJECTED (%s) a content that meets every format rule' % (who, err), 'rejects-valid')
+    return None
 
 
 # ------------------------------------------------------------------------------------------------
